@@ -1265,9 +1265,17 @@ def cases_render(rng, gr, n):
     P = Pools(gr)
     bad_pool = make_bad_pool(rng, gr)
     fixed = [c for c in corpus('render')]
-    for da, db, sig, why in RENDER_PROBES:
-        fixed.append(dict(fn='render_pair', kind='probe', sig=sig or 'render-probe:%s' % da, a=doc('', '', '#t{%s}' % da),
-                          b=doc('', '', '#t{%s}' % db), note='%s == %s (%s)' % (da, db, why)))
+    for da, db, sig, why, *more in RENDER_PROBES:
+        cont = more[0] if more else ''
+        case = dict(fn='render_pair', kind='probe', sig=sig or 'render-probe:%s' % da, a=doc(cont, '', '#t{%s}' % da),
+                    b=doc(cont, '', '#t{%s}' % db), note='%s == %s (%s)' % (da, db, why))
+        if more:
+            case['control'] = dict(a=doc(cont, '', '#t{%s}' % more[1]), b=doc(cont, '', '#t{%s}' % more[2]), sig=more[3])
+        fixed.append(case)
+    # the witnesses of the open crash findings F126-F128 (a pair of identical documents)
+    for rules in ('#t{font-language-override:""}', '#t:nth-child(2n+){color:red}', '#t:nth-child(+){color:red}'):
+        d = doc('', '', rules)
+        fixed.append(dict(fn='render_pair', kind='probe', sig='render-probe:%s' % rules, a=d, b=d, note='renders: ' + rules))
     cases = []
     tries = 0
     while len(cases) < n and tries < 20 * n:
@@ -1321,7 +1329,7 @@ def stream_render(run, cases, outs):
                          'properties and @page size/margin); var: var(--x) / fallback / nested / inherited / partial vs the '
                          'substituted text; bad-decl: a declaration that yields nothing inserted anywhere in a rule, a style '
                          'attribute, @page or a parent rule vs absent; bad-rule: one of 70 malformed rules/at-rules (or a stray '
-                         'declaration) between two good rules vs absent; compute: any accepted value of any property, the name in another case between two void declarations (all computed values are read). Placement: author rule, style attribute, !important')
+                         'declaration) between two good rules vs absent; probe: the fixed witnesses of the open findings, each with its control pair (a deviation is filed under an open finding only when the pair differs AND the control pair - the same documents without the suspected cause - agrees); compute: any accepted value of any property, the name in another case between two void declarations (all computed values are read). Placement: author rule, style attribute, !important')
 
 
 # ================================================================================ 6. spec probes
@@ -1367,6 +1375,17 @@ RENDER_PROBES = [
      'a custom property set to `initial` is the guaranteed-invalid value: var() takes the fallback'),
     ('width:3px;width:var(--x,)', 'width:auto', 'valid-dropped',
      'var(--x,) has an empty fallback: the declaration is valid, and invalid at computed-value time (= unset)'),
+    # the witnesses of F129-F132 with their mechanism test: (a, b, None, why, container, control a, control b, signature)
+    ('--x:url(pattern.png);background-image:var(--x)', 'background-image:url(pattern.png)', None,
+     'a relative url() through var() in a longhand', '',
+     '--x:url(file:///nonexistent/pattern.png);background-image:var(--x)',
+     'background-image:url(file:///nonexistent/pattern.png)', 'var:url-longhand-base'),
+    ('font-family:var(--u, weasyprint, serif)', 'font-family:weasyprint, serif', None, 'a fallback with commas', '',
+     'font-family:var(--u, weasyprint, serif)', 'font-family:weasyprint serif', 'var:fallback-commas'),
+    ('--a-b:1px;--a_b:2px;width:var(--a-b)', 'width:1px', None, '--a-b is not --a_b', '',
+     '--a-b:1px;--a_b:2px;width:var(--a-b)', 'width:2px', 'var:dash-underscore'),
+    ('flex:1 0.0', 'flex-grow:1;flex-shrink:0;flex-basis:0px', None, 'a unitless zero is a flex factor', 'display:flex;',
+     'flex:1 0', 'flex-grow:1;flex-shrink:0;flex-basis:0px', 'flex:unitless-zero-spelling'),
     ('--x:5px;width:var(--x)', 'width:5px', None, 'plain substitution'),
     ('--x:5px;width:var(--X, 9px)', 'width:9px', None, 'custom property names are case-sensitive'),
 ]
@@ -1426,11 +1445,11 @@ def check(run):
                     rule='for each of the %d names of PROPERTIES and EXPANDERS: which of ~1300 candidate values (generic '
                          'single tokens, idents quoted in its validator, the strings of tests/css/test_validation.py and '
                          'test_expanders.py) the implementation accepts' % len(gr.names))
-    streams = [('pp', cases_pp(rng, gr, 12000 if thorough else 2600)),
-               ('dispatch', cases_dispatch(rng, gr, 20000 if thorough else 4000)),
-               ('units', cases_units(rng, 2000 if thorough else 300)),
-               ('var', cases_var(run, rng, 8000 if thorough else 1500)),
-               ('render', cases_render(rng, gr, 3000 if thorough else 500)),
+    streams = [('pp', cases_pp(rng, gr, 30000 if thorough else 2600)),
+               ('dispatch', cases_dispatch(rng, gr, 50000 if thorough else 4000)),
+               ('units', cases_units(rng, 4000 if thorough else 300)),
+               ('var', cases_var(run, rng, 20000 if thorough else 1500)),
+               ('render', cases_render(rng, gr, 8000 if thorough else 500)),
                ('probes', cases_probes())]
     allc = [c for _, cs in streams for c in cs]
     outs = run_multi(allc, limit=240)
